@@ -20,7 +20,6 @@ S  players: Pbind / Pmono / Pchain / Ppar / Pdur / Pdelta / Pseq compositions
 The oracle (mc/oracles/event_ref.py) never imports sc3; its don't-cares are
 listed in its docstring."""
 
-import math
 import itertools
 
 from mc import core
@@ -30,7 +29,6 @@ from mc.oracles import event_ref as ref
 MODE = 'nrt'
 MODNAME = 'mc.checks.c14'
 EXTRA_INIT = (MODNAME, 'worker_init')
-NSHARDS = 64
 CALL_BUDGET = 200000          # python-level calls per guarded library run
 
 CTRLS = ['freq', 'amp', 'pan', 'out', 'gate', 'cutoff']
@@ -67,8 +65,6 @@ def worker_init():
     import warnings
     warnings.simplefilter('ignore')
     from sc3.base.main import main
-    from sc3.synth.synthdef import SynthDef
-    from sc3.synth.ugens import Out, DC
 
     class Capture(logging.Handler):
         def emit(self, record):
@@ -84,41 +80,102 @@ def worker_init():
         lg.addHandler(Capture())
         lg.propagate = False
     for mask in range(64):
-        names = [c for i, c in enumerate(CTRLS) if mask >> i & 1]
-        src = 'def f(%s):\n    Out.ar(0, DC.ar(0))\n' % \
-            ', '.join(f'{c}=0.5' for c in names)
-        ns = {'Out': Out, 'DC': DC}
-        exec(src, ns)
-        SynthDef(instr_name(mask), ns['f']).add()
+        register(mask)
     main.reset()
     _READY[0] = True
 
 
+def register(mask):
+    from sc3.synth.synthdef import SynthDef
+    from sc3.synth.ugens import Out, DC
+    names = [c for i, c in enumerate(CTRLS) if mask >> i & 1]
+    src = 'def f(%s):\n    Out.ar(0, DC.ar(0))\n' % \
+        ', '.join(f'{c}=0.5' for c in names)
+    ns = {'Out': Out, 'DC': DC}
+    exec(src, ns)
+    SynthDef(instr_name(mask), ns['f']).add()
+
+
+def desc_state(mask):
+    from sc3.synth.synthdesc import SynthDescLib
+    d = SynthDescLib.default.at(instr_name(mask))
+    return [list(d.control_names), [c.name for c in d.controls],
+            bool(d.has_gate)]
+
+
+def restore_instruments():
+    """Cases must not influence each other through the instrument registry:
+    after every case the 64 descriptions are compared with what was
+    registered; a changed one is reported (for the case that changed it) and
+    registered again."""
+    changed = []
+    for mask in range(64):
+        names = [c for i, c in enumerate(CTRLS) if mask >> i & 1]
+        want = [names, names, 'gate' in names]
+        try:
+            got = desc_state(mask)
+        except Exception as e:
+            got = f'{type(e).__name__}: {e}'
+        if got != want:
+            changed.append([instr_name(mask), want, got])
+            register(mask)
+    return changed
+
+
 class _CallBudget:
     """Deterministic guard against non-termination: counts python-level
-    function calls (cheap: no line tracing) and raises progenum's
-    StepBudgetExceeded (a BaseException, so the library cannot swallow it)."""
+    function calls (sys.monitoring PY_START where available, else a
+    call-only trace function: no line tracing, so it is cheap) and raises
+    progenum's StepBudgetExceeded (a BaseException, so the library cannot
+    swallow it with `except Exception`)."""
+
+    TOOL = 4
 
     def __init__(self, limit):
         self.limit = limit
         self.n = 0
 
-    def _trace(self, frame, event, arg):
+    def _hit(self):
         self.n += 1
         if self.n > self.limit:
-            raise progenum.StepBudgetExceeded(self.limit)
+            self.limit = self.n + 5000      # raise again if it is swallowed
+            raise progenum.StepBudgetExceeded(self.n)
+
+    def _mon(self, code, offset):
+        if code is not _EXIT_CODE:
+            self._hit()
+
+    def _trace(self, frame, event, arg):
+        if frame.f_code is not _EXIT_CODE:
+            self._hit()
         return None
 
     def __enter__(self):
         import sys
-        self._old = sys.gettrace()
-        sys.settrace(self._trace)
+        self._monitoring = hasattr(sys, 'monitoring')
+        if self._monitoring:
+            m = sys.monitoring
+            m.use_tool_id(self.TOOL, 'c14-call-budget')
+            m.register_callback(self.TOOL, m.events.PY_START, self._mon)
+            m.set_events(self.TOOL, m.events.PY_START)
+        else:
+            self._old = sys.gettrace()
+            sys.settrace(self._trace)
         return self
 
     def __exit__(self, *exc):
         import sys
-        sys.settrace(self._old)
+        if self._monitoring:
+            m = sys.monitoring
+            m.set_events(self.TOOL, 0)
+            m.register_callback(self.TOOL, m.events.PY_START, None)
+            m.free_tool_id(self.TOOL)
+        else:
+            sys.settrace(self._old)
         return False
+
+
+_EXIT_CODE = _CallBudget.__exit__.__code__
 
 
 def lib_scale(name):
@@ -138,8 +195,13 @@ def lib_value(key, v):
     return v
 
 
-def lib_kwargs(given):
-    return {k: lib_value(k, v) for k, v in given.items()}
+def lib_kwargs(given, scale_fn=False):
+    kw = {k: lib_value(k, v) for k, v in given.items()}
+    if scale_fn and 'scale' in kw:
+        # the scale as a function-valued key (EventDict.__call__ evaluates
+        # functions with the event as argument)
+        kw['scale'] = (lambda sc: (lambda ev: sc))(kw['scale'])
+    return kw
 
 
 def lib_vp(key, vp):
@@ -207,7 +269,7 @@ def run_score(lat, body, at=None, budget=True):
     srv = Server.default
     old = srv.latency
     srv.latency = lat
-    res = {'score': None, 'exc': None, 'log': []}
+    res = {'score': None, 'exc': None, 'log': [], 'desc_changed': []}
     try:
         def go():
             if at is None:
@@ -233,7 +295,20 @@ def run_score(lat, body, at=None, budget=True):
         srv.latency = old
         res['log'] = list(_LOG)
         main.reset()
+        res['desc_changed'] = restore_instruments()
+        if res['desc_changed']:
+            main.reset()              # drop the /d_recv of the re-registration
     return res
+
+
+def desc_disc(r, pre):
+    if r.get('desc_changed'):
+        c = r['desc_changed'][0]
+        return [(f'{pre}instrument-description-changed', c[1], c[2],
+                 f'playing changed the registered description of {c[0]} '
+                 f'(control names, controls, has_gate): the next event '
+                 f'played with this instrument sees other controls')]
+    return []
 
 
 # ---------------------------------------------------------------------------
@@ -367,7 +442,8 @@ def compare(expected, score, lat):
             starts.append((a, a['events'][0]))
     tags = [e['tag'] for _, e in starts]
     alltags = tags + [e['tag'] for a in expected if a['kind'] == 'mono'
-                      for e in a['events'][1:]]
+                      for e in a['events'][1:]
+                      if not (e['rest'] and e['tag'] is None)]
     bytag = None not in alltags and len(set(alltags)) == len(alltags)
     matched = {}
     if bytag:
@@ -385,8 +461,11 @@ def compare(expected, score, lat):
             if e['tag'] in obs:
                 matched[i] = obs[e['tag']]
     else:
-        order = sorted(range(len(starts)), key=lambda i: starts[i][1]['t'])
-        sn = sorted(snew, key=lambda s: s['t'])
+        # the order of simultaneous bundles is not decided: pair by time,
+        # then instrument name
+        order = sorted(range(len(starts)),
+                       key=lambda i: (starts[i][1]['t'], starts[i][0]['instr']))
+        sn = sorted(snew, key=lambda s: (s['t'], str(s['name'])))
         for i, s in zip(order, sn):
             matched[i] = s
         for s in sn[len(order):]:
@@ -450,7 +529,7 @@ def compare(expected, score, lat):
             for ev in a['events'][1:]:
                 exp_tags.add(ev['tag'])
                 if ev['rest']:
-                    if ev['tag'] in sets:
+                    if ev['tag'] is not None and ev['tag'] in sets:
                         out.append(('rest-played', None,
                                     nset_repr(sets[ev['tag']][1]), ''))
                     continue
@@ -505,34 +584,35 @@ def renumber(score):
 K_AT, K_LAT = 0.5, 0.25
 
 
-def scale_feat(given):
+def scale_feat(given, scale_fn=False):
     s = given.get('scale')
-    return '' if s is None else '@scale-' + s
+    return '' if s is None else \
+        ('@scalefn-' if scale_fn else '@scale-') + s
 
 
-def k_lookup(given, key):
+def k_lookup(given, key, scale_fn=False):
     from sc3.seq.event import event
     try:
-        return norm(event(lib_kwargs(given))(key))
+        return norm(event(lib_kwargs(given, scale_fn))(key))
     except Exception as e:
         return ['EXC', f'{type(e).__name__}: {e}'[:200]]
 
 
 def check_K(case, info):
     given = case['given']
+    sfn = bool(case.get('scale_fn'))
     out = []
-    feat = scale_feat(given)
+    feat = scale_feat(given, sfn)
     p, a, d = ref.pitch(given), ref.amp(given), ref.dur(given)
-    want = {k: [v] for k, v in given.items() if k != 'scale'}
-    want.update({'note': p['note'], 'midinote': p['midinote'],
-                 'freq': p['freq'], 'amp': a['amp'],
-                 'delta': [d['delta']], 'sustain': [d['sustain']]})
+    want = {'note': p['note'], 'midinote': p['midinote'], 'freq': p['freq'],
+            'amp': a['amp'], 'delta': [d['delta']],
+            'sustain': [d['sustain']]}
     for k, v in given.items():
         if k != 'scale':
-            want[k] = [v]
+            want[k] = [v]             # an explicit key is returned as given
     obs = {}
     for key in sorted(want):
-        v = k_lookup(given, key)
+        v = k_lookup(given, key, sfn)
         obs[key] = v
         if isinstance(v, list) and v and v[0] == 'EXC':
             out.append((f'K:lookup-raises{feat}', {key: want[key]}, v,
@@ -549,9 +629,10 @@ def check_K(case, info):
 
     def body():
         from sc3.seq.event import event
-        event(lib_kwargs(kw)).play()
+        event(lib_kwargs(kw, sfn)).play()
     r = run_score(K_LAT, body, at=K_AT, budget=False)
     info['outcome'] = [obs, renumber(r['score']) if r['score'] else r['exc']]
+    out += desc_disc(r, 'K:')
     if r['score'] is None or r['log']:
         out.append((f'K:play-raises{feat}', 'one /s_new',
                     r['exc'] or r['log'], 'event.play() inside a routine'))
@@ -601,11 +682,28 @@ def opt_product(table, nvals):
         yield {k: v for k, v in zip(keys, combo) if v is not None}
 
 
-def gen_K(tier):
-    nv = 1 if tier == 'quick' else 2
+K_LEVELS_T = {'mtranspose': 2, 'gtranspose': 1, 'octave': 2, 'root': 1,
+              'harmonic': 2, 'detune': 1, 'ctranspose': 2}
+
+
+def mod_product(tier):
+    """All ways to leave each modifier absent or give it one of its values:
+    quick 1 value each (2^7), thorough 2 values for four of them (3^4 2^3)."""
+    keys = list(MODS)
+    choices = [[None] + MODS[k][:1 if tier == 'quick' else K_LEVELS_T[k]]
+               for k in keys]
+    for combo in itertools.product(*choices):
+        yield {k: v for k, v in zip(keys, combo) if v is not None}
+
+
+def gen_K_pitch(tier, shard=0, of=1):
+    """Main-key subsets x modifier combinations x scales; sharded on the
+    modifier combination index."""
     scales = SCALES_Q if tier == 'quick' else SCALES_T
     mains = main_combos()
-    for mods in opt_product(MODS, nv):
+    for i, mods in enumerate(mod_product(tier)):
+        if i % of != shard:
+            continue
         for sc in scales:
             for m in mains:
                 g = dict(m)
@@ -613,6 +711,19 @@ def gen_K(tier):
                 if sc is not None:
                     g['scale'] = sc
                 yield {'fam': 'K', 'given': g}
+
+
+def gen_K_rest(tier):
+    # tunings, the scale given as a function-valued key
+    for sc in ['major_just'] if tier == 'quick' else \
+            ['major_just', 'minorpent', 'major_et24', 'bp']:
+        for mods in ({}, {'mtranspose': 1}, {'octave': 4, 'gtranspose': 1},
+                     {'root': 2, 'ctranspose': 1, 'harmonic': 2}):
+            for m in main_combos():
+                g = dict(m)
+                g.update(mods)
+                g['scale'] = sc
+                yield {'fam': 'K', 'given': g, 'scale_fn': True}
     for a in opt_product(AMPV, 2):
         for d in opt_product(DURV, 2):
             if not a and not d:
@@ -621,8 +732,18 @@ def gen_K(tier):
             g.update(d)
             yield {'fam': 'K', 'given': g}
     if tier != 'quick':
+        # second value of the modifiers that have one level in the product
+        for k, lv in K_LEVELS_T.items():
+            if lv == 1:
+                for sc in SCALES_T:
+                    for m in main_combos():
+                        g = dict(m)
+                        g[k] = MODS[k][1]
+                        if sc is not None:
+                            g['scale'] = sc
+                        yield {'fam': 'K', 'given': g}
         # cross of the three chains (reduced values)
-        for m in mains:
+        for m in main_combos():
             for mods in ({}, {'octave': 4, 'harmonic': 2},
                          {'mtranspose': 1, 'ctranspose': 1, 'detune': 3}):
                 for a in opt_product(AMPV, 1):
@@ -663,29 +784,33 @@ P_SRV = [{}, {'add_action': 'addToTail'}, {'group': 7},
 
 
 def p_contexts(tier):
-    full = [(at, lat, d, s) for at in P_AT for lat in P_LAT for d in P_DUR
-            for s in P_SRV]
     if tier != 'quick':
-        return full
-    # quick: 8 contexts in which every value of every axis occurs
-    return [full[i] for i in (0, 37, 74, 111, 20, 57, 94, 127 - 12)]
+        # every (time, latency) x every pair of (duration keys, server keys)
+        # values, the pairs arranged in two 4x4 latin squares
+        return [(at, lat, P_DUR[i], P_SRV[(i + j) % 4])
+                for at in P_AT for lat in P_LAT for i in range(4)
+                for j in (0, 1 + P_LAT.index(lat))]
+    # quick: 4 contexts in which every value of every axis occurs
+    return [(P_AT[i], P_LAT[i % 2], P_DUR[i], P_SRV[i]) for i in range(4)]
 
 
-def gen_P(tier):
+def gen_P(tier, mask):
     ctxs = p_contexts(tier)
-    for mask in range(64):
-        for pk, ak, pa, ou, cu in itertools.product(P_PITCH, P_AMP, P_PAN,
-                                                    P_OUT, P_CUT):
-            g = {}
-            for part in (pk, ak, pa, ou, cu):
-                g.update(part)
-            for at, lat, d, s in ctxs:
-                gg = dict(g)
-                gg.update(d)
-                gg.update(s)
-                yield {'fam': 'P', 'at': at, 'lat': lat,
-                       'events': [{'instr': mask, 'given': gg, 'wait': 0}]}
-    # two events from one routine: fresh ids, independent messages
+    for pk, ak, pa, ou, cu in itertools.product(P_PITCH, P_AMP, P_PAN,
+                                                P_OUT, P_CUT):
+        g = {}
+        for part in (pk, ak, pa, ou, cu):
+            g.update(part)
+        for at, lat, d, s in ctxs:
+            gg = dict(g)
+            gg.update(d)
+            gg.update(s)
+            yield {'fam': 'P', 'at': at, 'lat': lat,
+                   'events': [{'instr': mask, 'given': gg, 'wait': 0}]}
+
+
+def gen_P_pairs(tier):
+    """Two events from one routine: fresh ids, independent messages."""
     pool = [(19, {'degree': 2, 'amp': 0.25}), (33, {'freq': 330.0,
                                                     'cutoff': 300}),
             (63, {'midinote': 61, 'dur': 0.5}), (0, {'pan': 0.5})]
@@ -728,8 +853,8 @@ def check_P(case, info):
         r = run_score(lat, body_all, at=at, budget=False)
     info['outcome'] = renumber(r['score']) if r['score'] else r['exc']
     if r['score'] is None or r['log']:
-        return [('P:play-raises', f'{len(evs)} /s_new',
-                 r['exc'] or r['log'], '')]
+        return desc_disc(r, 'P:') + [('P:play-raises', f'{len(evs)} /s_new',
+                                      r['exc'] or r['log'], '')]
     exp, t = [], (at or 0)
     for e in evs:
         t += e['wait']
@@ -740,8 +865,9 @@ def check_P(case, info):
                     'group': g.get('group', 1), 'tag': None,
                     'spec': ref.note_spec(g, ctrls_of(instr_name(
                         e['instr'])))})
-    return [(f'P:{disc}', e, o, det)
-            for disc, e, o, det in compare(exp, r['score'], lat)]
+    return desc_disc(r, 'P:') + [
+        (f'P:{disc}', e, o, det)
+        for disc, e, o, det in compare(exp, r['score'], lat)]
 
 
 def nontrivial_P(case):
@@ -859,7 +985,7 @@ def gen_S(tier):
             yield case(['Ppar', [pb(a, 40), pb(b, 60, I_FAG)]])
     for a in d2:
         for b in d2:
-            for c in d2 if q else d3:
+            for c in [[0.25], [0.5, 1], [1, 0.25]] if q else d3:
                 yield case(['Ppar', [pb(a, 40), pb(b, 60, I_FAG),
                                      pb(c, 80, I_FGC)]])
             yield case(['Ppar', [pm(a, 40), pb(b, 60)]], STARTS[1])
@@ -915,6 +1041,8 @@ def gen_S(tier):
         for a in d3:
             for b in d3:
                 for d in (0.75, 1.25, 2.5):
+                    if d in dl and len(a) < 3 and len(b) < 3:
+                        continue            # already in S5
                     yield case(['Pseq', [['Pdur', d, ['Ppar', [
                         pb(a, 40, inf=True), pb(b, 60, I_FAG)]]], MARK]])
                 yield case(['Ppar', [pm(a, 40), pm(b, 60, I_FA)]])
@@ -1009,10 +1137,13 @@ def discs_S(pat, at, clock, lat, info=None):
                                'group': 1, 'events': []}
                 exp.append(voices[vid])
             voices[vid]['events'].append(item)
-    if r['score'] is None:
-        return {'play-raises': (f'{len(exp)} notes', r['exc'], '')}
-    _RESTTAGS[0] = resttags
     out = {}
+    for d in desc_disc(r, ''):
+        out[d[0]] = d[1:]
+    if r['score'] is None:
+        out['play-raises'] = (f'{len(exp)} notes', r['exc'], '')
+        return out
+    _RESTTAGS[0] = resttags
     for disc, e, o, det in compare(exp, r['score'], lat):
         if disc == 'note-extra' and isinstance(o, list) and \
                 tag_of(pairs_of(o[2])[0] or {}) in resttags:
@@ -1163,6 +1294,9 @@ def standalone(case):
         lines.append(f"instrument({instr_name(FULL)!r}, {CTRLS!r})")
         lines.append('main.reset()')
         lines.append(f'keys = {src_dict(g)}')
+        if case.get('scale_fn'):
+            lines.append("keys['scale'] = (lambda sc: lambda ev: sc)"
+                         "(keys['scale'])")
         lines.append("for k in ('note', 'midinote', 'freq', 'amp', 'delta', "
                      "'sustain'):\n    print(k, event(keys)(k))")
         at, lat = K_AT, K_LAT
@@ -1204,9 +1338,6 @@ def standalone(case):
 # engine glue
 # ---------------------------------------------------------------------------
 
-CHECK = {'K': None, 'P': None, 'S': None}
-
-
 def check_case(case, info=None):
     info = {} if info is None else info
     fam = case['fam']
@@ -1242,24 +1373,55 @@ def replay(job):
 _CACHE = {}
 
 
-def generate(tier):
+def cases_S(tier):
     if tier not in _CACHE:
         cases, seen = [], set()
-        for g in (gen_K, gen_P, gen_S):
-            for c in g(tier):
-                k = core.canon(c)
-                if k not in seen:          # literally identical cases merge
-                    seen.add(k)
-                    cases.append(c)
+        for c in gen_S(tier):
+            k = core.canon(c)
+            if k not in seen:          # literally identical cases merge
+                seen.add(k)
+                cases.append(c)
         _CACHE[tier] = cases
     return _CACHE[tier]
 
 
+def part_cases(job):
+    """The cases of one job; the jobs of `jobs(tier)` partition the space."""
+    part, tier = job['part'], job['tier']
+    if part == 'Kp':
+        return gen_K_pitch(tier, job['shard'], job['of'])
+    if part == 'Kr':
+        return itertools.islice(gen_K_rest(tier), job['shard'], None,
+                                job['of'])
+    if part == 'P':
+        return gen_P(tier, job['mask'])
+    if part == 'Pp':
+        return gen_P_pairs(tier)
+    if part == 'S':
+        return itertools.islice(cases_S(tier), job['shard'], None,
+                                job['of'])
+    raise core.HarnessError(f'bad part {part}')
+
+
+def jobs(tier):
+    js = [{'part': 'Kp', 'shard': i, 'of': 64} for i in range(64)]
+    js += [{'part': 'Kr', 'shard': i, 'of': 8} for i in range(8)]
+    js += [{'part': 'P', 'mask': m} for m in range(64)]
+    js += [{'part': 'Pp'}]
+    js += [{'part': 'S', 'shard': i, 'of': 32} for i in range(32)]
+    for j in js:
+        j['tier'] = tier
+    return js
+
+
+def all_cases(tier):
+    for j in jobs(tier):
+        yield from part_cases(j)
+
+
 def work(job):
     acc = progenum.Acc()
-    cases = generate(job['tier'])
-    for idx in range(job['shard'], len(cases), job['of']):
-        case = cases[idx]
+    for case in part_cases(job):
         info = {}
         dis = check_case(case, info)
         for kind, exp, obs, detail in dis:
@@ -1302,14 +1464,13 @@ def main(ctx):
         'legato 0.8)',
         f'player runs are guarded by a budget of {CALL_BUDGET} python calls']
     ctx.extra['call_budget'] = CALL_BUDGET
-    jobs = [{'shard': i, 'of': NSHARDS, 'tier': ctx.tier}
-            for i in range(NSHARDS)]
-    bound = ('K: 1 value/modifier, 5 scales; P: 8 contexts; S: dur '
+    bound = ('K: 1 value/modifier, 5 scales; P: 4 contexts; S: dur '
              'sequences <=3 (Ppar x3: <=2)') if ctx.tier == 'quick' else \
-        ('K: 2 values/modifier, 7 scales/tunings, chain cross; P: all 128 '
+        ('K: up to 2 values/modifier, 7 scales/tunings, chain cross; P: 64 '
          'contexts; S: dur sequences <=4 (Ppar/Pdur: <=3)')
     ctx.extra['space'] = bound
-    progenum.run(ctx, MODNAME, 'work', jobs, mode='nrt', bound=ctx.tier,
+    progenum.run(ctx, MODNAME, 'work', jobs(ctx.tier), mode='nrt',
+                 bound=ctx.tier,
                  extra_init=EXTRA_INIT)
 
 
@@ -1322,9 +1483,10 @@ def pred_pattern_has(v, head=None, **params):
     return c.get('fam') == 'S' and head in pat_heads(c['pat'])
 
 
-def pred_scale_is(v, names=(), **params):
+def pred_scale_is(v, names=(), scale_fn=None, **params):
     c = v['case']
-    return c.get('fam') == 'K' and c['given'].get('scale') in names
+    return c.get('fam') == 'K' and c['given'].get('scale') in names and \
+        (scale_fn is None or bool(c.get('scale_fn')) == scale_fn)
 
 
 PREDICATES = {'pattern_has': pred_pattern_has, 'scale_is': pred_scale_is}
